@@ -329,6 +329,47 @@ def opCirc (j : Json) : Option Json := do
   | none => some (err "type")
   | some lhs => some (ok (jObj [("lhshat", jV (List.ofFn lhs)), ("xhat", jV (List.ofFn (circSolveHat lhs rhsHat)))]))
 
+/-- `MatrixSubproblemSolver.internal_init`: arguments of `MatrixATADSolver` -/
+def opAdmmMatrix (j : Json) : Option Json := do
+  let n ← fNat? j "n"
+  let m ← fNat? j "m"
+  let scale ← fFloat? j "scale"
+  let A := matOf (α := α) (← vecField? j "A") m n
+  let W := vecOf (α := α) (← vecField? j "W") m
+  let tl ← fList? j "terms"
+  let terms ← tl.mapM fun t => do
+    let rho ← fFloat? t "rho"
+    let isDiag ← fBool? t "diag"
+    let C ← vecField? (α := α) t "C"
+    if isDiag then some ((Sc.ofFloat rho : α), COp.diag (vecOf C n))
+    else do
+      let p ← fNat? t "p"
+      some ((Sc.ofFloat rho : α), COp.mat p (matOf C p n))
+  match matrixSubATAD (Sc.ofFloat scale : α) A W terms with
+  | none => some (err "type")
+  | some s =>
+    let dj := match s.D with
+      | .diag d => jObj [("ddiag", jB true), ("D", jV (List.ofFn d))]
+      | .full D => jObj [("ddiag", jB false), ("D", jV (matToList D))]
+    some (ok (jObj [("d", dj), ("W", jV (List.ofFn s.W)), ("A", jV (matToList s.A)), ("woodbury", jB s.useWoodbury)]))
+
+/-- objective `GenericSubproblemSolver` hands to `minimize` -/
+def opGenObj (j : Json) : Option Json := do
+  let n ← fNat? j "n"
+  let tl ← fList? j "terms"
+  let terms ← tl.mapM (parseTerm (α := α) n)
+  let f ← parseF (α := α) n j
+  let x : FVec α := .ofList (← vecField? j "x")
+  let sq : FVec α → Float := fun v => v.d.foldl (fun s z => s + Sc.absSq z) 0
+  let fval : Option (FVec α → Float) := f.map fun f => fun x =>
+    -- `SquaredL2Loss.__call__`: scale * sum(W * |y - A x|^2); scale and W are real
+    let r := f.y - f.A.eval x
+    let w := f.W ⟨Array.replicate r.d.size 1⟩
+    Sc.sqrtRe (f.scale * f.scale) * (Array.zipWith (fun wi ri => Sc.sqrtRe (wi * wi) * Sc.absSq ri) w.d r.d).foldl (· + ·) 0
+  let ts : List (Float × (FVec α → FVec α) × FVec α × FVec α) :=
+    terms.map fun t => (Sc.sqrtRe (t.rho * t.rho), t.C.eval, t.z, t.u)
+  some (ok (jF (genericObj sq fval ts x)))
+
 end generic
 
 /-! ### bisect / golden (real): element `i` applies the polynomial with coefficients `coef[i]` (Horner) -/
@@ -388,6 +429,8 @@ def handler : Handler := fun op j =>
   | "relres" => if cplx then opRelRes (α := Cx Float) j else opRelRes (α := Float) j
   | "admm" => if cplx then opAdmm (α := Cx Float) j else opAdmm (α := Float) j
   | "circ" => if cplx then opCirc (α := Cx Float) j else opCirc (α := Float) j
+  | "admm_matrix" => if cplx then opAdmmMatrix (α := Cx Float) j else opAdmmMatrix (α := Float) j
+  | "genobj" => if cplx then opGenObj (α := Cx Float) j else opGenObj (α := Float) j
   | "bisect" => opBisect j
   | "golden" => opGolden j
   | _ => none
